@@ -52,6 +52,27 @@ def lex(fb, text, max_tokens=12, raw=None):
                     st.pos += 1
                     return some(ch)
                 return none() if take is False else UNKNOWN
+            end_ = c.rsplit("::", 1)[-1]
+            if end_ in machine.ITER_METHODS and end_ not in ("next", "collect"):
+                # any other iterator method straight on the character stream (find, position, all, skip_while ...): it consumes
+                # from the stream as far as the method pulls
+                class _View(machine.Iter):
+                    def __init__(self):
+                        self.items, self.pos = [], 0
+
+                    def next(self):
+                        if st.pos < len(st.chars):
+                            st.pos += 1
+                            return some(st.chars[st.pos - 1])
+                        return none()
+
+                    def rest(self):
+                        r_ = st.chars[st.pos:]
+                        st.pos = len(st.chars)
+                        return r_
+                r_ = mc._iter_model(c, end_, [_View()] + list(a[1:]), tt, g)
+                if r_ is not NOT:
+                    return r_
         if c.endswith("<impl str>::parse") or c.endswith("str::parse"):
             dty = g.local_ty(tt["dest"]["local"]) or ""
             gens = (tt.get("fn") or {}).get("generics") or []
@@ -197,3 +218,49 @@ def probe_rule(ctx, rule_id):
         seen.add(key)
         ctx.report(rule_id, key, "reading the text %r panics (%s) instead of yielding tokens or a reported error" % (text, why), where_of(nx))
     return n
+
+
+# ------------------------------------------------------------------------------------------------ token locations after every kind of layout
+
+LOCATION_TEXTS = [
+    ("plain", "m1 (m2\n  12 \"s\")\nm3"),
+    ("multi-line-constructs", "\"ab\ncd\" m1\n\"e\\nf\" m2 ; c (\n|g\nh| m3"),
+    ("comments", "; whole line (\nm1 ; trailing\n;\n; two\nm2 ;; x\n  m3"),
+    ("crlf", "m1\r\n  m2 ; c\r\nm3"),
+    ("blank-lines-and-tabs", "\n\n\tm1\n \t m2\n\nm3"),
+    ("comment-last", "m1 m2\nm3 ; no newline at the end"),
+]
+
+
+def rule_token_locations(ctx, rule):
+    """every marker token m1 m2 m3 of six texts — after strings, |identifiers| and comments that span lines, line comments of
+    every shape, CRLF line ends, blank lines and tabs — is located at the position just after its last character
+    (line, 1-based column): what a diagnostic prints is derived from these"""
+    from .ctx import where_of
+    import re
+    fb = ctx.fb()
+    nx = fb.find("<parser::lexer::Lexer as std::iter::Iterator>::next")
+    decided = 0
+    for label, text in LOCATION_TEXTS:
+        key = "token-location/%s" % label
+        toks = lex(fb, text, max_tokens=30)
+        if toks and toks[-1][0] in ("stuck", "panic"):
+            ctx.undecided(rule, key, "cannot follow the lexer on %r (%s)" % (text, toks[-1][1]), where_of(nx))
+            continue
+        if toks and toks[-1][0] == "error":
+            ctx.undecided(rule, key, "the lexer rejects %r on this tree (%s)" % (text, toks[-1][1]), where_of(nx))
+            continue
+        want = []
+        for m in re.finditer(r"m[123]", text):
+            i = m.end() - 1
+            line = 1 + text[:i + 1].count("\n")
+            col = i + 1 - (text[:i + 1].rfind("\n") + 1) + 1
+            want.append((m.group(0), [line, col]))
+        got = [(t[1], t[2]) for t in toks if t[0] == "Identifier" and t[1] in ("m1", "m2", "m3")]
+        decided += 1
+        ctx.inst(rule, key, {"tokens": got})
+        ctx.oblige(got == want)
+        if got != want:
+            ctx.report(rule, key, "the tokens m1 m2 m3 of %r are located %s, expected each at the position just after its last character: %s — "
+                       "every diagnostic of a program laid out like this names another line / column" % (text, got, want), where_of(nx))
+    return decided
